@@ -250,13 +250,34 @@ def inline_call(fn, n, depth=0):
     if callee is None or callee.body is None or callee.did == fn.did:
         return None
     stmts = [s for s in _kids(callee.body) if s is not None]
-    if len(stmts) != 1 or stmts[0]["k"] != "ReturnStmt" or not _kids(stmts[0]):
-        return None
     args = _kids(n)[1:] if n.get("member_call") else _kids(n)
-    if len(args) < len(callee.params):
+    if len(args) < len(callee.params) or not stmts:
         return None
     mapping = {p["did"]: a for p, a in zip(callee.params, args)}
-    return _subst(_kids(stmts[0])[0], mapping)
+    # leading declarations of locals (values or references) stand for their initialisers
+    while stmts and stmts[0]["k"] == "DeclStmt":
+        for v in _kids(stmts[0]):
+            if v["k"] != "VarDecl" or not _kids(v) or _kids(v)[0] is None:
+                return None
+            mapping[v["did"]] = _subst(_kids(v)[0], mapping)
+        stmts = stmts[1:]
+    # (if (c) return e;)* return e;   ->   c ? e : (...)
+    def chain(rest):
+        if not rest:
+            return None
+        s0 = rest[0]
+        if s0["k"] == "ReturnStmt" and _kids(s0) and len(rest) == 1:
+            return _subst(_kids(s0)[0], mapping)
+        if s0["k"] == "IfStmt":
+            c, t, e = (_kids(s0) + [None, None])[:3]
+            t_stmts = [x for x in _kids(t) if x is not None] if t is not None and t["k"] == "CompoundStmt" else [t]
+            tv = chain(t_stmts)
+            ev = chain(([x for x in _kids(e) if x is not None] if e["k"] == "CompoundStmt" else [e]) if e is not None else rest[1:])
+            if tv is None or ev is None or (e is not None and len(rest) > 1):
+                return None
+            return {"k": "ConditionalOperator", "id": -11, "ty": "bool", "l": s0.get("l"), "ch": [_subst(c, mapping), tv, ev]}
+        return None
+    return chain(stmts)
 
 
 def describe(n, depth=0):
